@@ -182,7 +182,7 @@ class ListCommand(CommandAuth):
     only_subscribed: ClassVar[bool] = False
 
     _list_mailbox_pattern = re.compile(br'[\x21\x23-\x27\x2A-\x5B'
-                                       br'\x5D-\x7A\x7C\x7E]+')
+                                       br'\x5D-\x7A\x7C-\x7E]+')
 
     def __init__(self, tag: bytes, ref_name: str, filter_: str) -> None:
         super().__init__(tag)
